@@ -382,6 +382,11 @@ def run15(tier):
         if k < 40:
             dists.append(((1609 * (100 * k + 50)) // 100, '%d.5M' % k))
             dists.append(((1609 * (100 * k + 25)) // 100, '%d.25M' % k))
+    # yards on the track ('440Y', '100y'): untabulated, so graded by distance - 0.9144 m each
+    for n in list(range(25, 2000, 5)) + list(range(2000, 11000, 40)):
+        dists.append(((9144 * n) // 10000, '%dY' % n))
+        if n % 20 == 0:
+            dists.append(((9144 * n) // 10000, '%dy' % n))
     for q in range(2, 100):             # below one mile: 0.02M .. 0.99M
         if (1609 * q) // 100 >= 20:
             dists.append(((1609 * q) // 100, ('0.%02d' % q).rstrip('0') + 'M'))
